@@ -261,7 +261,7 @@ func Differential(c *core.Case) diffOutcome {
 		return out
 	}
 	out.res, out.ref = res, refRes
-	out.diff = oracle.Equal(res, refRes, oracle.DefaultTol(Scale(c.Series)))
+	out.diff = oracle.Equal(res, refRes, TolOf(c))
 	if out.diff != "" && res.Err == nil && refRes.Err == nil && (hasFeat(out.feats, "agg:topk") || hasFeat(out.feats, "agg:bottomk")) {
 		// A tie at the cut of a topk/bottomk has no defined winner; only then is a
 		// difference in the selected series not judged.
@@ -303,6 +303,9 @@ func evalDiff(nontrivial func(c *core.Case, o diffOutcome) bool) func(*core.Case
 			return core.Verdict{Status: "skip", Detail: o.skipWhy, Features: o.feats}
 		}
 		if o.diff != "" || o.wf != "" {
+			if id := kf.MatchAfterFailure(c); id != "" {
+				return core.Verdict{Status: "known", Known: id, Features: o.feats}
+			}
 			return core.Verdict{Status: "violation", Detail: describeDiff(c, o), Features: o.feats}
 		}
 		return ok(nontrivial(c, o), o.feats)
@@ -326,7 +329,7 @@ func knownDifferential(c *core.Case, query string, series []core.Series, start, 
 	kc.Query = query
 	kc.Series = series
 	kc.Start, kc.End, kc.Step = start, end, step
-	return kf.Match(&kc)
+	return kf.MatchAfterFailure(&kc)
 }
 
 // equalOrTie is oracle.Equal, except that a difference between two successful
